@@ -4,7 +4,7 @@
 SEED=$1; shift
 WT=/tmp/seedtest
 [ -d $WT ] || git -C /repo worktree add -q --detach $WT HEAD
-git -C $WT checkout -q -- . 
+git -C $WT checkout -q -- . ; git -C $WT checkout -q --detach main
 git -C $WT apply /verif/seeded/$SEED/patch.diff || exit 9
 PROPS="$@"; [ -z "$PROPS" ] && PROPS=$(echo $SEED | cut -c1-3)
 for p in $PROPS; do
